@@ -306,14 +306,14 @@ Definition do4 : op := OpSet 1 0 10 100.
 Definition do5 : op := OpSet 2 20 (-8) 100.
 Definition do6 : op := OpSet 3 0 (-12) 100.
 Definition do7 : op := OpSet 4 0 31990 100.
-Definition dg0 : book := newBook 1 100.
-Definition dg1 : book := apply_op true bd0 dg0 do1.
-Definition dg2 : book := apply_op true bd0 dg1 do2.
-Definition dg3 : book := apply_op true bd0 dg2 do3.
-Definition dg4 : book := apply_op true bd0 dg3 do4.
-Definition dg5 : book := apply_op true bd0 dg4 do5.
-Definition dg6 : book := apply_op true bd0 dg5 do6.
-Definition demo_G : book := apply_op true bd0 dg6 do7.
+Notation dg0 := (newBook 1 100).
+Notation dg1 := (apply_op true bd0 dg0 do1).
+Notation dg2 := (apply_op true bd0 dg1 do2).
+Notation dg3 := (apply_op true bd0 dg2 do3).
+Notation dg4 := (apply_op true bd0 dg3 do4).
+Notation dg5 := (apply_op true bd0 dg4 do5).
+Notation dg6 := (apply_op true bd0 dg5 do6).
+Notation demo_G := (apply_op true bd0 dg6 do7).
 Definition demo_sl : list (N * list (N * N)) :=
   [(1%N, [(10%N, 2%N); (11%N, 3%N)]); (2%N, [(20%N, 4%N)]); (3%N, [(21%N, 4%N)]); (4%N, [])].
 Notation demo_read := (OpRead (serializeBook demo_G) [(1%N, 7%N); (2%N, 5%N); (3%N, 9%N); (4%N, 3%N)] demo_sl).
